@@ -13,7 +13,8 @@ LEAN_TARGETS = ["Props.C08"]
 ANCHORS = ["cyecca/lie/group_se23.py", "cyecca/models/rdd2.py"]
 MISSING = [
     "uniqueness of the ODE solution (ODE_solution_unique) is not invoked: the theorems identify the output with the explicit "
-    "closed-form flow R0 exp(w^ t), v0 - g e3 t + R0 t V1(wt) a, p0 + v0 t - g e3 t^2/2 + R0 t^2 V2(wt) a and its group laws",
+    "closed-form flow R0 exp(w^ t), v0 - g e3 t + R0 t V1(wt) a, p0 + v0 t - g e3 t^2/2 + R0 t^2 V2(wt) a, whose derivatives (HasDerivAt) and "
+    "semigroup law (dt1 then dt2 = dt1 + dt2, Lib/Flow.flow_semigroup, lifted to the translated propagator on the closed-form cells) ARE theorems",
     "Taylor cells of the coefficients: bound, not equality — numeric search only",
 ]
 
